@@ -262,6 +262,8 @@ def flatten(x, out=None):
             flatten(y, out)
     elif x is None:
         out.append(None)
+    elif isinstance(x, str):
+        out.append("s:" + x)
     elif isinstance(x, dict):
         for k in sorted(x):
             flatten(x[k], out)
